@@ -30,6 +30,24 @@ HOOK_GUARD = "JINJA_VERIF_HOOKS"
 # the implementation under test is always /repo's working tree
 # --------------------------------------------------------------------------
 
+def source_fingerprint() -> str:
+    """sha256 over the engine's source files (names and contents), the tree the checks import"""
+    h = hashlib.sha256()
+    root = REPO / "src" / "jinja2"
+    for f in sorted(root.rglob("*.py")):
+        h.update(str(f.relative_to(root)).encode())
+        h.update(b"\0")
+        h.update(f.read_bytes())
+        h.update(b"\0")
+    return h.hexdigest()
+
+
+def source_is_baseline() -> bool:
+    """is /repo's source the tree the baselines (and the harness's own preconditions) were recorded against?"""
+    p = VERIF / "translate" / "baseline" / "SOURCE.sha256"
+    return p.exists() and p.read_text().strip() == source_fingerprint()
+
+
 def import_jinja():
     src = str(REPO / "src")
     if src not in sys.path:
